@@ -110,6 +110,7 @@ def make_strategy():
 
 def to_case(v):
     toks, lseed, cseed = v
+    cseed = family.cfg_seed(cseed)
     rng = random.Random(lseed)
     style = dict(p_cmt=rng.choice([0.15, 0.4, 0.8]), bs_cmt=0.25, p_nl_slot=0.2)
     src, r = layout.render(toks, rng, 'C', style)
@@ -181,6 +182,7 @@ def make_strategy_cpp():
 
 def to_case_cpp(v):
     toks, lseed, cseed = v
+    cseed = family.cfg_seed(cseed)
     rng = random.Random(lseed)
     src, r = layout.render(toks, rng, 'CPP', dict(p_cmt=rng.choice([0.15, 0.4, 0.8]), bs_cmt=0.2, p_nl_slot=0.2))
     crng = random.Random(cseed)
@@ -200,6 +202,7 @@ def main(ctx):
     quick = ctx.tier == 'quick'
     ex = family.exclusions(ctx)
     _EX.update(ex)
+    family.set_tier(ctx)
     ctx.rule = ('case = (source, language, whitespace-class config), judged when uncrustify exits 0; non-trivial = the input has a '
                 'multi-line comment, a backslash-ended // comment or a literal containing tab / newline / non-ASCII, and the output '
                 'differs from the input; distinct by sha256(source, language, config)')
@@ -208,15 +211,15 @@ def main(ctx):
     core.replay_regress(ctx, replay)
     files = corpus.files()
     cases = []
-    cfgs = [{}] + family.random_cfgs(core.subseed(ctx.seed, 'a'), 2 if quick else 24, CLASSES, (0.01, 0.03, 0.08), ex, ctx.counts)
+    cfgs = [{}] + family.random_cfgs(core.subseed(ctx.useed, 'a'), 2 if quick else 24, CLASSES, (0.01, 0.03, 0.08), ex, ctx.counts)
     for rel, lang in files:
         src = corpus.read(rel)
         for i, cd in enumerate(cfgs):
             cases.append(family.Case(src, lang, cd, {'kind': 'corpus', 'file': rel, 'cfg_index': i}))
-    ccfgs = [{}] + family.random_cfgs(core.subseed(ctx.seed, 'c'), 12 if quick else 60, CLASSES, (0.02, 0.06, 0.15), ex, ctx.counts) + \
+    ccfgs = [{}] + family.random_cfgs(core.subseed(ctx.useed, 'c'), 12 if quick else 60, CLASSES, (0.02, 0.06, 0.15), ex, ctx.counts) + \
         [{'indent_with_tabs': '0'}, {'indent_with_tabs': '2', 'align_with_tabs': 'true'}, {'indent_columns': '3', 'output_tab_size': '5'}]
     for i in range(1500 if quick else 40000):
-        r = random.Random(core.subseed(ctx.seed, 'carrier', i))
+        r = random.Random(core.subseed(ctx.useed, 'carrier', i))
         lang, text = carrier(r)
         cases.append(family.Case(text.encode('utf-8'), lang, r.choice(ccfgs), {'kind': 'carrier', 'i': i}))
     raw = family.explore(ctx, judge, cases)
